@@ -347,6 +347,7 @@ def run_reconnect_during_send(spec, acc):
             resume_after = rng.randint(0, 12)         # loop steps between starting the new sends and A's resumption
             eof_delay = rng.randint(0, 6)             # loop steps between parking and the peer's half-close
             new_plan = [rng.choice([0, 2, 4]) for _ in range(40)]
+            queue_b_first = rep % 2 == 1
 
             async def scenario(sim):
                 def on_accept(conn):
@@ -359,6 +360,9 @@ def run_reconnect_during_send(spec, acc):
                 sim.sent_from = len(c0.written)
                 c0.pause_plan = [0] * (park_after - 1) + [park_steps]
                 sim.spawn("send", msgs[0])
+                if queue_b_first:
+                    await asyncio.sleep(0)
+                    sim.spawn("send", msgs[1])         # queued on the send lock behind the parked sender
                 for _ in range(park_after + 2 + eof_delay):
                     await asyncio.sleep(0)
                 c0.feed_eof()                          # peer half-closes: our write direction stays usable
@@ -366,7 +370,9 @@ def run_reconnect_during_send(spec, acc):
                     if len(sim.conns) >= 2 and sim.status[-1:] == ["CONNECTED"]:
                         break
                     await asyncio.sleep(0.001)         # virtual time must advance for the connect timer to fire
-                sim.spawn("send", msgs[1])
+                sim.reconnected_step = sim.loop.steps
+                if not queue_b_first:
+                    sim.spawn("send", msgs[1])
                 for _ in range(rng.choice([0, 1, 3])):
                     await asyncio.sleep(0)
                 sim.spawn("send", msgs[2])
@@ -386,6 +392,13 @@ def run_reconnect_during_send(spec, acc):
             if len(sim.conns) < 2:
                 acc.count("no_reconnect_happened_in_session")
                 continue
+            # once the new link is up, nothing may be written to an older one any more
+            late = [e for e in sim.trace if e["k"] == "write" and e["conn"] < len(sim.conns) - 1 and e["s"] > getattr(sim, "reconnected_step", 10 ** 9)]
+            if late:
+                acc.violation("packets-written-to-a-replaced-link", f"{kind}: {len(late)} packet(s) were written to connection {late[0]['conn']} after connection {len(sim.conns) - 1} had become the client's link",
+                              dict(w, queue_b_first=queue_b_first))
+            if sim.status.count("CONNECTED") > 2 or len(sim.conns) > 2:
+                acc.violation("healthy-link-dropped-after-reconnect", f"{kind}: status {sim.status}, {len(sim.conns)} connections for one link fault", dict(w, queue_b_first=queue_b_first))
             for conn in sim.conns:
                 start = sim.sent_from if conn.id == 0 else 0
                 log = b"".join(d for _, d in conn.written[start:])
